@@ -12,9 +12,13 @@ from vlib.tlc import MachineryError
 UNDECIDED = ["the value of the estimates for genuinely Gaussian weights exp(-chi^2/2)",
              "'estimates change by no more than the left-out weight share' for non-degenerate weights"]
 
-DS = {1: [np.array([[1.0]]), np.array([[4.0]])],
-      2: [np.eye(2), np.diag([1.0, 4.0]), np.array([[2.0, 1.0], [1.0, 2.0]]), np.array([[5.0, 2.0], [2.0, 2.0]])]}
-X2S = [0.5, 2.0, 5.0]
+# (index-aligned with Sinvs(m) / X2s of BmciProps; the first entries also serve as D of the spike / flat regimes)
+DS = {1: [np.array([[1.0]]), np.array([[4.0]]), np.array([[0.25]])],
+      2: [np.eye(2), np.diag([1.0, 4.0]), np.array([[2.0, 1.0], [1.0, 2.0]]), np.array([[5.0, 2.0], [2.0, 2.0]]),
+          np.diag([0.25, 1.0]), np.array([[0.25, 0.125], [0.125, 0.25]])]}
+DS[3] = [np.eye(3), np.diag([1.0, 4.0, 9.0]), np.eye(3) + np.ones((3, 3)), 4.0 * np.eye(3) - np.ones((3, 3))]
+CORRELATED = {1: set(), 2: {2, 3, 5}, 3: {2, 3}}
+X2S = [0.5, 2.0, 5.0, 8.0]
 
 
 def replay(col, item):
@@ -111,9 +115,33 @@ def replay(col, item):
             col.count(1)
             need = Counter((tuple(float(v) for v in db[i - 1][0]), float(db[i - 1][1])) for i in must)
             if any(kept[k] < n_ for k, n_ in need.items()):
-                col.violation("x2max-window-drops-entry-within-chi2" + ("-correlated" if d >= 2 else ""),
+                col.violation("x2max-window-drops-entry-within-chi2" + ("-correlated" if d in CORRELATED[m] else ""),
                               {"abstract": {"db": db, "y": case["y"], "D": Dm.tolist(), "x2_max": x2, "must_keep": must},
                                "observed": {"window": [i_l, i_u], "kept": [list(k[0]) + [k[1]] for k in kept]}})
+    # one chi-square shell: all weights are equal under S = D itself (no degenerate scaling), so predict() must give the
+    # plain mean and spread of the whole database (= the flat regime's values) -- this binds S^-1 as typhon computes it
+    for d, Dm in enumerate(DS[m]):
+        if not case["shell"][d] or fl(case["chi2"][d]) > 200:
+            continue
+        for perm in perms[:2]:
+            idx = list(perm)
+            try:
+                b = BMCI(y[idx].copy(), x[idx].copy(), Dm.copy())
+                with np.errstate(all="ignore"):
+                    mean, std = b.predict(yobs.copy())
+            except Exception as ex:
+                col.violation("predict-raises-%s-one-shell" % type(ex).__name__,
+                              {"abstract": {"db": db, "y": case["y"], "D": Dm.tolist()}, "observed": repr(ex)[:200]})
+                continue
+            col.count(1)
+            if len({tuple(e[0]) for e in db}) > 1:
+                col.bump("one_shell_runs_with_distinct_measurements")
+            exp = case["flat"]
+            if not close(mean[0], fl(exp["mean"]), 1e-9) or not close(std[0] ** 2, fl(exp["var"]), 1e-8):
+                col.violation("predict-unequal-weights-on-one-chi2-shell" + ("-correlated" if d in CORRELATED[m] else ""),
+                              {"abstract": {"db": db, "y": case["y"], "D": Dm.tolist(), "chi2_of_every_entry": case["chi2"][d]},
+                               "concrete": {"permutation": idx}, "expected": [fl(exp["mean"]), fl(exp["var"])],
+                               "observed": [float(mean[0]), float(std[0] ** 2)]})
     # large constant offset in x (exact in binary): the spread must not be lost to cancellation (spike regime: weights are 0/1)
     if not case["spike"]["empty"]:
         off = 2.0 ** 26
@@ -136,7 +164,7 @@ def replay(col, item):
 def run(ctx):
     quick = ctx.tier == "quick"
     ctx.undecided = UNDECIDED
-    ctx.rule = ("TLC enumerates (samples) databases of <= 4 entries with 1-2 integer channels (duplicates, constant x) and an "
+    ctx.rule = ("TLC enumerates (samples) databases of <= 4 entries with 1-3 integer channels (duplicates, constant x) and an "
                 "observation inside / outside the database, and prescribes for the spike regime (S = 1e-6 D: exact matches "
                 "only) and the flat regime (S = 1e12 D: all entries alike) the mean, the variance, the x-sorted selection, its "
                 "cumulative shares and the x range; BMCI.predict / cdf / predict_quantiles are run for permutations of the "
@@ -144,7 +172,7 @@ def run(ctx):
                 "entries or no hit.")
     d = ctx.tlc_dir("num")
     cases = []
-    for mchan in (1, 2):
+    for mchan in (1, 2, 3):
         with open(os.path.join(d, "MCBmci.cfg"), "w") as f:
             f.write("CONSTANTS MChan = %d MaxN = 4 NSample = %d\nINIT Init\nNEXT Next\nINVARIANT Laws\nINVARIANT Emit\n"
                     % (mchan, 14 if quick else 200))
@@ -153,5 +181,7 @@ def run(ctx):
     if len(cases) < 50:
         raise MachineryError("too few BMCI cases")
     pmap(ctx, replay, [(c, n) for n, c in enumerate(cases)])
+    if ctx.notes.get("one_shell_runs_with_distinct_measurements", 0) < 40:
+        raise MachineryError("too few one-shell databases: the equal-weights clause was not exercised")
     ctx.traces += len(cases)
     ctx.sample({k: cases[5][k] for k in ("db", "y", "spike", "flat")})
